@@ -5,6 +5,51 @@ from vlib.runner import Group, run_property
 SUM = ["deps.dev/util/semver.compare", "(*deps.dev/util/semver.Constraint).Match", "(deps.dev/util/resolve/internal/attr.Set).Compare"]
 
 
+REQK = ["D.0", "D.0", "[D.0,E.0]", "[D.0,)", "[D.0]", "(,D.0)", "D.0"]  # = harness c07ReqKinds
+
+
+def skeleton2(rnd, allsoft, symbolic=5):
+    """Second-generation Maven skeleton: 3-4 artifacts, two slots per version, four on the root, classifier variants."""
+    np = rnd.choice([3, 4, 4])
+    p = {"allsoft": allsoft, "mgt": 0, "mgtr": 0, "mgtc": 1, "np": np}
+    kinds = [0, 0, 0, 1, 2, 3, 4] if allsoft else [0, 0, 0, 1, 2, 3, 4, 5, 6, 6]
+    reqs = [0, 1, 6] if allsoft else [0, 0, 1, 2, 3, 4, 4, 5, 6]
+
+    def slot(tag, t):
+        p.update({tag + "t": t, tag + "r": rnd.choice(reqs), tag + "k": rnd.choice(kinds), tag + "x": rnd.randrange(np)})
+    targets = list(range(1, np + 1))
+    rnd.shuffle(targets)
+    for s in range(4):
+        slot("r%d" % s, targets[s] if s < np and (s < 2 or rnd.random() < 0.6) else 0)
+    if not allsoft and rnd.random() < 0.3:
+        p["mgt"] = rnd.choice([1, 2, 3])
+        p["mgtr"] = rnd.choice([0, 1, 6])
+    for pi in range(4):
+        nv = rnd.choice([1, 2, 2, 3])
+        p["nv%d" % pi] = nv
+        majors = rnd.sample([1, 2, 3], 3)
+        for vi in range(3):
+            tag = "%d%d" % (pi, vi)
+            p["mj" + tag] = majors[vi]
+            others = [t for t in range(1, np + 1) if t != pi + 1]
+            t0 = rnd.choice([0] + others + others)
+            slot("p%ss0" % tag, t0)
+            # the second slot may name the same artifact again as a classifier variant
+            t1 = rnd.choice([0, 0] + [t for t in others if t != t0] + ([t0] if (t0 and not allsoft) else []))
+            slot("p%ss1" % tag, t1)
+            if t1 and t1 == t0:
+                p["p%ss0k" % tag], p["p%ss1k" % tag] = 0, 6
+    left = symbolic
+    tags = ["r%d" % s for s in range(4)] + ["p%d%ds%d" % (pi, vi, s) for vi in range(3) for pi in range(4) for s in range(2)]
+    for tag in tags:
+        if p[tag + "t"] and left >= 1:
+            p[tag + "c"] = 0
+            left -= 1
+        else:
+            p[tag + "c"] = rnd.choice([1, 2, 3])
+    return p
+
+
 def run(tier):
     base = dict(unwind=120, timeout_s=600 if tier == "quick" else 3000, summarise=SUM, max_witnesses=1, witness_every=1000, panic_is_violation=True)
     jobs = []
@@ -84,11 +129,14 @@ def run(tier):
                         tgt = c if (pi + 1) in (a, b) else 0
                         p.update({"p%d%dt" % (pi, vi): tgt, "p%d%dr" % (pi, vi): 0, "p%d%dk" % (pi, vi): 0, "p%d%dx" % (pi, vi): 0})
                 jobs.append(dict(rbase, harness="VerifC07Resolve", params=p))
-    lemmas = [j for j in jobs if j["harness"] != "VerifC07Resolve"]
-    whole = [j for j in jobs if j["harness"] == "VerifC07Resolve"]
+    rnd2 = random.Random(20261008)
+    for i in range(600 if q else 8000):
+        jobs.append(dict(rbase, harness="VerifC07Resolve2", params=skeleton2(rnd2, 1 if i % 3 == 0 else 0)))
+    lemmas = [j for j in jobs if not j["harness"].startswith("VerifC07Resolve")]
+    whole = [j for j in jobs if j["harness"].startswith("VerifC07Resolve")]
     # two overlays: a change to /repo that stops the unit-lemma harness from compiling (it names unexported helpers)
     # leaves the whole-resolver harness, which uses the public API only, running
-    return run_property("C07", tier, [Group("rmaven", lemmas, files=["c07.go", "c07r.go", "c05shared.go"]), Group("rmaven", whole, files=["c07r.go", "c05shared.go"])],
+    return run_property("C07", tier, [Group("rmaven", lemmas, files=["c07.go", "c07r.go", "c07r2.go", "c05shared.go"]), Group("rmaven", whole, files=["c07r.go", "c07r2.go", "c05shared.go"])],
                         required_covers=["requirements parsed", "match expected", "no candidate", "excluded", "not excluded", "dependency followed",
                                          "dependency skipped", "same artifact", "different artifact", "resolved", "a graph with several nodes", "nearest-wins checked", "a declaration excluded on its path"],
                         assumptions=["unit lemmas: findMatch, isExcluded/parseExclusions/mergeExclusions, imports, packageKeyForDependency",
